@@ -342,11 +342,17 @@ func (p *parser) parsePermissionExpressions(finalToken itemType, depth int) *ast
 
 		case item.Typ == finalToken:
 			p.next() // consume final token
+			if root == nil {
+				p.addFatal(item, "expected an expression, got %q", item.Val)
+			}
 			return root
 
 		case item.Typ == itemBraceRight:
 			// We don't consume the '}' here, to allow `parsePermits` to consume
 			// it.
+			if root == nil {
+				p.addFatal(item, "expected an expression, got %q", item.Val)
+			}
 			return root
 
 		case item.Typ == itemOperatorAnd, item.Typ == itemOperatorOr:
@@ -355,6 +361,7 @@ func (p *parser) parsePermissionExpressions(finalToken itemType, depth int) *ast
 			// A nil root means that we saw a binary expression before the first
 			// expression.
 			if root == nil {
+				p.addFatal(item, "expected an expression before %q", item.Val)
 				return nil
 			}
 			switch op := setOperation(item.Typ); {
@@ -419,7 +426,12 @@ func (p *parser) parseNotExpression(depth int) ast.Child {
 	var child ast.Child
 	if item := p.peek(); item.Typ == itemParenLeft {
 		p.next() // consume paren
-		child = p.parsePermissionExpressions(itemParenRight, depth-1)
+		group := p.parsePermissionExpressions(itemParenRight, depth-1)
+		if group == nil {
+			// a nil *SubjectSetRewrite must not become a non-nil ast.Child
+			return nil
+		}
+		child = group
 	} else {
 		child = p.parsePermissionExpression()
 	}
